@@ -36,7 +36,7 @@ def one(sid, base, budget, workers):
         if p.returncode != 0:
             return sid, {"error": "patch does not apply on %s: %s" % (base, p.stdout[-300:])}
         env = dict(os.environ, VERIF_REPO=wt, VERIF_RACE_BUDGET_S="20")
-        for c in sorted(meta.get("checks", {meta["property"]: {}})):
+        for c in sorted(set(k.split()[0] for k in meta.get("checks", {meta["property"]: {}}))):  # keys may carry a remark after the id
             t0 = time.time()
             p = subprocess.run([os.path.join(VERIF, "check"), c, "--budget", str(budget), "--workers", str(workers)], env=env,
                                stdout=subprocess.PIPE, stderr=subprocess.STDOUT, text=True, errors="replace")
